@@ -145,6 +145,9 @@ func checkACL(acls []string, remoteAddr string) error {
 	if err != nil {
 		return fmt.Errorf("BUG: invalid remote address %q", remoteAddr)
 	}
+	if i := strings.IndexByte(host, '%'); i >= 0 {
+		host = host[:i] // strip the IPv6 zone, net.ParseIP does not accept it
+	}
 	remoteIP := net.ParseIP(host)
 	if remoteIP == nil {
 		return fmt.Errorf("BUG: invalid remote host %q", host)
